@@ -19,7 +19,9 @@ clock values, by induction over command sequences where stated:
 * `inv_preserved`, `reachable_inv`   — no empty collection, canonical maps, in every reachable state
 * `deadline_visibility` (+ `reads_depend_on_view_only`, `invisible_reads`, `visible_reads`)
 * `empty_collection_vanishes`
-* `ttl_laws`        — decision tables for TTL/PTTL/EXPIRETIME, EXPIRE* flags, SET options, who
+* `ttl_laws` (+ `expiretime_table`, `flags_table`, `expire_table`, `expire_arg_table`,
+  `set_expire_arg_table`, `set_table`, `overwrite_clears_deadline`, `modify_keeps_deadline`,
+  `rename_moves_deadline`, `persist_table`) — decision tables for TTL/PTTL/EXPIRETIME, EXPIRE* flags, SET options, who
                        clears / keeps a deadline
 * `index_laws`      — range normalisation never reads outside the sequence
 * `integer_laws`    — INCR family: exactly the canonical i64 strings, never wraps
@@ -152,7 +154,7 @@ theorem empty_collection_vanishes : C01_empty_collection_vanishes := by
 
 /-- TTL / PTTL / EXPIRETIME / PEXPIRETIME as a function of the visible keyspace:
     −2 missing, −1 no deadline, else ⌊(ms+500)/1000⌋ resp. ms -/
-theorem ttl_table (s : State) (now k : Nat) :
+theorem ttl_laws (s : State) (now k : Nat) :
     (step s now (.ttl k)).2 =
       (match NMap.get (view s now) k with
        | none => .int (-2)
